@@ -26,11 +26,14 @@ def nsSet (m : NsMap) (p : Option Str) (u : Str) : NsMap :=
 /-- `for k, v in src.items(): dst[k] = v` -/
 def nsUpdate (dst src : NsMap) : NsMap := src.foldl (fun r kv => nsSet r kv.1 kv.2) dst
 
-/-- what `queue[-1].ns_map` will be for the node the parser queues at a start event:
-`passed`  – the node keeps the map it was given (ElementNode, PrimitiveNode, StandardNode, WildcardNode, UnionNode);
-`top`     – the map of the node that was on top of the queue (WrapperNode: `parent.ns_map`;
+/-- how the node the parser queues at a start event keeps the map it is given:
+`passed`  – it keeps it (ElementNode, PrimitiveNode, StandardNode, WildcardNode, UnionNode);
+`top`     – it has the map of the node that was on top of the queue (WrapperNode: `parent.ns_map`;
             `UnionNode.child` returning itself);
-`empty`   – `SkipNode` (`self.ns_map = {}`) -/
+`empty`   – `SkipNode` (`self.ns_map = {}`).
+The handler used to read `queue[-1].ns_map` back as the parent's map; it now keeps the maps it
+passed on a stack of its own (`ns_maps`), so the plan is no longer read by `pump`.  It stays in the
+token so that the correspondence can run the real handler on parsers of every kind. -/
 inductive Store | passed | top | empty
 deriving DecidableEq, Repr
 
@@ -52,28 +55,25 @@ deriving Repr, DecidableEq
 /-- `prefix or None` -/
 def orNone (p : Str) : Option Str := if p.isEmpty then none else some p
 
-/-- `XmlEventHandler.merge_parent_namespaces`; `queue` holds `node.ns_map` of the queued nodes, innermost first -/
-def mergeParent (queue : List NsMap) (nsMap : NsMap) : NsMap :=
-  match queue with
+/-- `XmlEventHandler.merge_parent_namespaces(ns_maps[-1], element_ns_map)`; `stack` holds the maps the
+handler passed for the open elements, innermost first (the `{}` at the bottom of `ns_maps` is the `[]` case) -/
+def mergeParent (stack : List NsMap) (nsMap : NsMap) : NsMap :=
+  match stack with
   | parent :: _ => if nsMap.isEmpty then parent else nsUpdate parent nsMap
   | [] => nsUpdate [] nsMap
 
-def keep (st : Store) (queue : List NsMap) (passed : NsMap) : NsMap :=
-  match st with
-  | .passed => passed
-  | .top => queue.head?.getD []
-  | .empty => []
-
-/-- `XmlEventHandler.process_context`: the loop, with `element_ns_map` as `el` -/
+/-- `XmlEventHandler.process_context`: the loop, with `element_ns_map` as `el` and `ns_maps` as `stack`.
+(The END call is pushed to the parser when the next event arrives — see `Backends/Chunks.lean` —
+which does not change the sequence of calls.) -/
 def pump : List NsMap → NsMap → List Tok → List PEv
   | _, _, [] => []
-  | queue, el, .startNs p u :: rest =>
-    .registerNs (orNone p) u :: pump queue (nsSet el (orNone p) u) rest
-  | queue, el, .start q a st :: rest =>
-    let m := mergeParent queue el
-    .start q a m :: pump (keep st queue m :: queue) [] rest
-  | queue, el, .end q t tl :: rest =>
-    match queue with
+  | stack, el, .startNs p u :: rest =>
+    .registerNs (orNone p) u :: pump stack (nsSet el (orNone p) u) rest
+  | stack, el, .start q a _ :: rest =>
+    let m := mergeParent stack el
+    .start q a m :: pump (m :: stack) [] rest
+  | stack, el, .end q t tl :: rest =>
+    match stack with
     | [] => [.crash]
     | _ :: qs => .end q t tl :: pump qs el rest
 
